@@ -256,7 +256,27 @@ theorem complete_group (o : GenOpts) (hc : o.combine = true) (g0 conts : List By
   · simp only [List.cons_append, List.foldl_cons, hstep]
     simpa using h.2
 
+/-- … and the same for the model itself under every interleaving: whatever packets of other APIDs are mixed in, and
+    whatever groups those APIDs have open, if APID `a`'s own sub-history is FIRST, CONTINUATION*, LAST with consecutive
+    counts then the outputs at `a`'s packets are: nothing, …, nothing, the whole group as one packet. -/
+theorem complete_group_interleaved (o : GenOpts) (hc : o.combine = true) (a : Nat) (s : SegState)
+    (h conts : List Bytes) (first last : Bytes)
+    (hsub : h.filter (fun b => apidOf b = a) = first :: conts ++ [last])
+    (hf : seqFlags first = 1) (hcs : ∀ c ∈ conts, seqFlags c = 0) (hl : seqFlags last = 2)
+    (hcons : consecutiveCounts ((first :: conts ++ [last]).map seqCount) = true) :
+    ((segRun o s h).filter (·.1 = a)).map (·.2) =
+      (none, []) :: conts.map (fun _ => (none, [])) ++ [(some (first :: conts ++ [last]), [])] := by
+  rw [per_apid, hsub]
+  exact (complete_group o hc (s.get a) conts first last hf hcs hl hcons).1
+
 /-- Non-vacuity: counts 16383 → 0 → 1 (wrap-around) are consecutive. -/
 example : consecutiveCounts [16383, 0, 1] = true := by decide
+
+/-- Non-vacuity of `complete_group`'s hypotheses on concrete packets: FIRST (count 16383), CONTINUATION (count 0),
+    LAST (count 1) of APID 1. -/
+example : seqFlags [8, 1, 0x7F, 0xFF, 0, 0, 0] = 1 ∧ seqFlags [8, 1, 0x00, 0x00, 0, 0, 0] = 0 ∧
+    seqFlags [8, 1, 0x80, 0x01, 0, 0, 0] = 2 ∧
+    consecutiveCounts ((([8, 1, 0x7F, 0xFF, 0, 0, 0] : Bytes) :: [[8, 1, 0x00, 0x00, 0, 0, 0]] ++ [[8, 1, 0x80, 0x01, 0, 0, 0]]).map seqCount) = true := by
+  decide
 
 end Spp.C12
